@@ -127,6 +127,7 @@ def run(ck):
                      else "proof obligation no longer checks: %s" % ck.proof["broken"], {"examples": [c[1] for c in corr[:5]], "broken_obligation": ck.proof.get("broken")}, tag="correspondence", no_input=True)
     ck.assumptions = ["probabilities are preimage counts under a uniform tape", "independence across coefficients: each output coefficient is a function of its own tape segment (by construction of the models: map over words)",
                       "fixed weight: the slot-array -> subset refinement is tied by the exhaustive enumeration for n <= 8 (set-level uniformity proved for all n,h in Reservoir.v)"]
+    vf.run_deps(ck, ['C09'])
     return ck.finish(trusted=["coqc 8.16.1 kernel", "extraction + driver.ml", "h_samplers.cpp (scripted tape)", "translator"], extra_cov={"params_sha": info, "exhaustive": True})
 
 def replay(ck, rec):
